@@ -19,6 +19,12 @@ PROFILES = {
     "C05": [(6, _p(world="mem", kinds=["sync_hb", "sync_hb", "sync_hb_custom", "sync_hb_custom", "dehb"], p_fault_free=0.4,
                    fault_kinds=["crash"], p_ties=0.15, p_tiny_space=0.2, p_nodelay_false=0.05)), ],
     "C06": [(6, _p(world="mem", kinds=MF, p_tiny_space=0.35, p_pte=0.7, p_fault_free=0.5)), ],
+    "C19": [(6, _p(world="mem", kinds=["moasha"], p_fault_free=0.7, p_ties=0.3, fault_kinds=["crash"])), ],
+    "C14": [(6, _p(world="mem", kinds=["hb_stopping_bo", "hb_promotion_bo", "hb_promotion_bo", "hb_hypertune", "hb_dyhpo", "sync_hb_bo"],
+                   p_fault_free=0.5, fault_kinds=["crash"], p_no_ckpt_script=0.4, max_trials=12, p_nodelay_false=0.05)), ],
+    "C20": [(6, _p(world="mem", kinds=["hb_promotion", "hb_pasha", "hb_cost_promotion", "hb_rush_promotion", "sync_hb", "sync_hb_custom",
+                                       "dehb", "pbt", "pbt"], p_delete_ckpt=0.8, p_fault_free=0.6, fault_kinds=["crash"],
+                   p_no_ckpt_script=0.1, p_nodelay_false=0.05)), ],
     "C12": [(6, _p(world="mem", kinds=MF, p_noreport=0.08, p_callback_raise=0.2, p_wait=0.4,
                    stop_fields=["max_num_trials_started", "max_num_trials_finished", "max_num_trials_completed",
                                 "max_num_evaluations", "max_wallclock_time", "max_metric_value", "min_metric_value", "max_cost"])), ],
@@ -47,7 +53,8 @@ DRIVERS = {}  # property -> driver module name (twin / paired / crash-restart ch
 
 BUDGET = {
     # property: (quick_n, quick_budget_s, thorough_n, thorough_budget_s)
-    "default": (1200, 75, 40000, 900),
+    "default": (2500, 100, 60000, 1200),
+    "C14": (700, 110, 15000, 1500),
 }
 
 
@@ -57,7 +64,7 @@ def budget(prop, tier):
 
 
 def run_timeout(prop):
-    return 60.0
+    return 200.0 if prop in ("C14",) else 60.0
 
 
 def level(prop):
